@@ -53,6 +53,7 @@ type sysRemote struct {
 	IterErr    func(ctx context.Context, tag int, x int, cb cbE) error
 	Keep       func(ctx context.Context, tag int, cb cbI) error
 	Delayed    func(ctx context.Context, tag int, cb cbI) (int, error)
+	CbFirst    func(ctx context.Context, tag int, cb cbI, v any) error
 	WhoAmI     func(ctx context.Context, tag int) (string, error)
 	Sub        struct {
 		Deep struct {
@@ -285,6 +286,11 @@ func (l *sysLocal) Delayed(ctx context.Context, tag int, cb cbI) (int, error) {
 		return -1, errors.New("gate timeout")
 	}
 	return cb(ctx, tag)
+}
+func (l *sysLocal) CbFirst(ctx context.Context, tag int, cb cbI, v any) error {
+	l.inv(ctx, "CbFirst", tag, nil)
+	_, err := cb(ctx, tag)
+	return err
 }
 func (l *sysLocal) WhoAmI(ctx context.Context, tag int) (string, error) {
 	id := rpc.GetRemoteID(ctx)
